@@ -236,9 +236,12 @@ class ObjectNode:
 
     @cached_property
     def _ids(self) -> set[int]:
+        # Placeholder ancestors (see `Inspector.get_module`) carry `None`: they must not make
+        # every member whose value is `None` look like an ancestor.
+        own = set() if self.obj is None else {id(self.obj)}
         if self.parent is None:
-            return {id(self.obj)}
-        return {id(self.obj)} | self.parent._ids
+            return own
+        return own | self.parent._ids
 
     def _pick_member(self, name: str, member: Any) -> bool:
         return (
